@@ -49,6 +49,7 @@ type worker[T any, JobType iJob[T]] struct {
 	errorChan       chan error
 	waiters         *sync.Cond
 	tickers         []*time.Ticker
+	tickerStops     []chan struct{}
 	mx              sync.RWMutex
 	ctx             context.Context
 	cancel          context.CancelFunc
@@ -400,12 +401,21 @@ func (w *worker[T, JobType]) goRemoveIdleWorkers() {
 	}
 
 	ticker := time.NewTicker(interval)
+	// Ticker.Stop does not close ticker.C: the goroutine needs its own signal to end
+	stop := make(chan struct{})
 	w.mx.Lock()
 	w.tickers = append(w.tickers, ticker)
+	w.tickerStops = append(w.tickerStops, stop)
 	w.mx.Unlock()
 
 	go func() {
-		for range ticker.C {
+		for {
+			select {
+			case <-stop:
+				return
+			case <-ticker.C:
+			}
+
 			// Calculate the target number of idle workers
 			targetIdleWorkers := w.numMinIdleWorkers()
 
@@ -492,7 +502,12 @@ func (w *worker[T, JobType]) stopTickers() {
 		ticker.Stop()
 	}
 
+	for _, stop := range w.tickerStops {
+		close(stop)
+	}
+
 	w.tickers = make([]*time.Ticker, 0)
+	w.tickerStops = nil
 }
 
 func (w *worker[T, JobType]) closeChannels() {
@@ -658,6 +673,8 @@ func (w *worker[T, JobType]) Restart() error {
 		return ErrNotRunningWorker
 	}
 
+	// start() below creates a new idle-worker remover
+	w.stopTickers()
 	w.closeChannels()
 
 	w.mx.Lock()
